@@ -98,6 +98,9 @@ def dial_events(ctx, rng):
                 if ctx.tier == "quick" and len(os_) == 4 and rng.random() < 0.5:
                     continue
                 addrs = ["10.0.0.%d" % (i + 1) for i in range(len(os_))]
+                if timeout is None and len(os_) >= 2:
+                    # address lists that mix the families, IPv6 first or in between: the resolver's order is the order
+                    addrs = [("fd00::%d" % (i + 1)) if (i + len(useropts)) % 2 == 0 else a for i, a in enumerate(addrs)]
                 outcomes = {a: o for a, o in zip(addrs, os_)}
 
                 def factory(world, sock, address):
